@@ -44,12 +44,13 @@ def newOutcomesAndConditions (kordf : List Var → List Var) (new outcomes condi
 
 /-! ### rule 2 on the counterfactual graph (idc_star.py:165-198) -/
 
-/-- `all(are_d_separated(graph_mod, outcome, condition, conditions=blocked) for outcome in outcomes)`;
-a generator inside `all`: stops at the first `False`, an exception propagates when it is met -/
+/-- `all(are_d_separated(graph_mod, outcome, condition, conditions=blocked - {outcome, condition}) for outcome in outcomes)`;
+a generator inside `all`: stops at the first `False`, an exception propagates when it is met.
+(after `fix:` the tested pair is left out of the conditioning set) -/
 def allSeparated (g : MG Var) (cond : Var) (blocked : List Var) : List Var → Except Err Bool
   | [] => .ok true
   | o :: os => do
-    let s ← g.dSeparated o cond blocked
+    let s ← g.dSeparated o cond (blocked.filter (fun n => n ≠ o && n ≠ cond))
     if s then allSeparated g cond blocked os else pure false
 
 /-- `cf_rule_2_of_do_calculus_applies(cf_graph, outcomes, condition)` -/
@@ -62,21 +63,21 @@ def rule2Applies (cf : MG Var) (outcomes : List Var) (cond : Var) : Except Err B
 /-- `_raise_for_overlapping_interventions` -/
 def overlapping (is : List Iv) : Bool := is.any fun a => is.any fun b => a.name == b.name && a.star != b.star
 
-/-- `outcome.intervene(condition)`: the condition becomes the unstarred subscript `-name` whatever its value;
-a counterfactual outcome raises `ValueError` when the new subscript contradicts an existing one -/
-def interveneWith (o : Var) (cond : Var) : Except Err Var :=
-  let newIv : Iv := if cond.isIv then ⟨cond.name, cond.star.getD false⟩ else ⟨cond.name, false⟩
+/-- `outcome.intervene(new_conditions[condition])` (after `fix:` the subscript carries the observed VALUE of the
+condition, an `Intervention` named after its base variable; before, `outcome.intervene(condition)` always produced the
+unstarred `-name`).  A counterfactual outcome raises `ValueError` when the new subscript contradicts an existing one. -/
+def interveneWith (o : Var) (newIv : Iv) : Except Err Var :=
   if o.isCf then
     let is := ivsCanon (o.ivs ++ [newIv])
     if overlapping is then .error (.invalidInput "ValueError") else .ok { o with ivs := is }
   else .ok { name := o.name, star := o.star, ivs := [newIv] }
 
-/-- the dict comprehension that rewrites the outcomes when rule 2 applies to `cond` -/
-def exchangeOutcomes (cf : MG Var) (outcomes : Event) (cond : Var) : Except Err Event := do
+/-- the dict comprehension that rewrites the outcomes when rule 2 applies to `cond` (whose value is `val`) -/
+def exchangeOutcomes (cf : MG Var) (outcomes : Event) (cond : Var) (val : Iv) : Except Err Event := do
   let ps ← outcomes.mapM fun (p : Var × Iv) => do
     let anc ← cf.ancestorsInclusive [p.1]
     if elem' cond anc then
-      let k ← interveneWith p.1 cond
+      let k ← interveneWith p.1 val
       pure (k, p.2)
     else pure p
   pure (Event.ofList ps)
@@ -147,12 +148,15 @@ def idcStarFuel (ordf : List World → List World) (dordf kordf : List Var → L
       -- line 4
       match ← firstExchangeable cf no.keys nc.keys with
       | some c =>
-        let no' ← exchangeOutcomes cf no c
-        idcStarFuel ordf dordf kordf G fuel no' (nc.filter (fun p => p.1 ≠ c))
+        match nc.get? c with
+        | none => throw (.internal "KeyError")
+        | some val =>
+          let no' ← exchangeOutcomes cf no c val
+          idcStarFuel ordf dordf kordf G fuel no' (nc.filter (fun p => p.1 ≠ c))
       | none =>
         -- line 5
         let est ← idStar ordf dordf G (Event.ofList (no ++ nc))
-        if conditions.isEmpty then pure est
+        if conditions.isEmpty || isZeroE est then pure est   -- (`fix:` Zero is returned as it is)
         else conditional est (conditions.keys.map (·.name))
 
 def idcStarFuelBound (G : MG Name) (outcomes conditions : Event) : Nat :=
